@@ -4,12 +4,13 @@
    orb => "(||)"); nat, N, Z, positive stay the extracted inductive types. None of our own. *)
 From Coq Require Import ExtrOcamlBasic.
 From Coq Require Import List NArith ZArith.
-From VQ Require Import Fifo Heap Manager SliceJob SliceBatch SliceDisp SliceBar SliceWake SliceResp SlicePool SliceBarrier Lifecycle Codec Lockset HB.
+From VQ Require Import Fifo Heap Manager LList SliceJob SliceBatch SliceDisp SliceBar SliceWake SliceResp SlicePool SliceBarrier Lifecycle Codec Lockset HB.
 
 Extraction "model.ml"
   Fifo.new_queue Fifo.enqueue Fifo.dequeue Fifo.qlen Fifo.values Fifo.purge Fifo.purge_values Fifo.close Fifo.caps Fifo.qabs
   Manager.new_mgr Manager.register Manager.unregister Manager.swap_remove Manager.mlen Manager.count
   Manager.get_max Manager.get_min Manager.get_rr
+  LList.ll_step
   SliceJob.trun SliceJob.jrun SliceBatch.brun_t SliceDisp.drun_from SliceBar.xrun_from SliceWake.kstep SliceWake.kinit SliceWake.guard SliceWake.at_rest SliceResp.rrun_idx SliceResp.rinit SliceResp.deliver SlicePool.prun_idx SlicePool.pinit SliceBarrier.wbstep SliceBarrier.wbinit SliceBarrier.b_at_rest Lockset.lkrun_idx Lockset.lkinit HB.race_check Lifecycle.lstep Lifecycle.linit Lifecycle.lrun
   Codec.status_string Codec.parse_status Codec.enc_string Codec.enc_bytes Codec.dec_string
   Codec.runes_of_bytes Codec.utf8_encode_all Codec.encode_env Codec.encode_env_bytes Codec.decode_env
